@@ -290,6 +290,35 @@ def classify_exception(e: BaseException) -> str:
     return f"exception {type(e).__name__}"
 
 
+def edit_in_place(obj, tree) -> int:
+    """set every settable setting of the object and of all its descendants to its second probe value (`alt`), on the
+    LIVE object, after it has already been serialized once: what `to_dict()` returns afterwards must describe the object
+    as it is now (a serializer that remembers an earlier dictionary only bites here)"""
+    g = gc()
+    sp = specs()[tree[0]]
+    n = 0
+    for s in sp["settings"]:
+        if s.get("special") or s["sentinel"] is g.Unknown or s.get("alt", g.Unknown) is g.Unknown or not s.get("attr"):
+            continue
+        if s["name"] not in sp.get("settable", []) and s["is_param"]:
+            continue
+        tgt = obj.context if s["on_ctx"] else obj
+        try:
+            setattr(tgt, s["attr"], copy.deepcopy(s["alt"]))
+            n += 1
+        except Exception:  # noqa: BLE001  (read-only property: nothing to edit)
+            pass
+    kids = {}
+    for slot, key, sub in tree[1]:
+        kids.setdefault(slot, []).append((key, sub))
+    for sl in sp["slots"]:
+        have = children_of(obj, sl)
+        for (_, child), (_, sub) in zip(have, kids.get(sl["name"], [])):
+            if type(child).__name__ == sub[0]:
+                n += edit_in_place(child, sub)
+    return n
+
+
 def real_roundtrip(tree, path, mut, values: str = "sentinel") -> dict:
     import quansino.mc  # noqa: F401
     from ase.io.jsonio import decode, encode
@@ -299,7 +328,10 @@ def real_roundtrip(tree, path, mut, values: str = "sentinel") -> dict:
     sp = specs()[tree[0]]
     with warnings.catch_warnings():
         warnings.simplefilter("ignore")
-        obj = make(tree, values)
+        obj = make(tree, "sentinel" if values == "edited" else values)
+        if values == "edited":
+            encode(obj.to_dict())           # serialized once (as a restart observer does at step 0) …
+            edit_in_place(obj, tree)        # … then reconfigured in place
         text = encode(obj.to_dict())
         d = decode(text)
         if mut[0] != "none":
@@ -360,7 +392,7 @@ class RoundTrip(common.Suite):
             if sp["slots"]:
                 trees += [tree_for(sp, rng, d, v) for d in (2, 3) for v in range(nrand)]
             for t in trees:
-                for values in ("sentinel", "falsy", "foreign"):
+                for values in ("sentinel", "falsy", "foreign", "edited"):
                     if values == "foreign" and not any(foreign_override(S[n]) for n in {node_at(t, p)[0] for p in all_paths(t)}):
                         continue
                     c = emit(t, [], ["none"], values)
@@ -469,7 +501,7 @@ class RoundTrip(common.Suite):
         sp = specs().get(case["tree"][0], {})
         depth = max((len(p) for p in all_paths(case["tree"])), default=0)
         o = obs.get("outcome", "exception").split()[:2]
-        return f"{sp.get('kind', '?')}:depth{depth}:{case['mut'][0]}{'@inner' if case['path'] else ''}{'/' + case['values'] if case.get('values') in ('falsy', 'foreign') else ''}:{' '.join(o[:2] if o and o[0] == 'err' else o[:1])}"
+        return f"{sp.get('kind', '?')}:depth{depth}:{case['mut'][0]}{'@inner' if case['path'] else ''}{'/' + case['values'] if case.get('values') in ('falsy', 'foreign', 'edited') else ''}:{' '.join(o[:2] if o and o[0] == 'err' else o[:1])}"
 
 
 # --------------------------------------------------------------------------- import-first
